@@ -82,21 +82,54 @@ func genC02(t *rapid.T) hx.SessionCase {
 	}
 	var reqs []hx.Req
 	cur := -1
+	var lastEnd int64 = -1 // where the previous read on the current file ended (clients read sequentially)
 	nreq := rapid.IntRange(2, 24).Draw(t, "nreq")
 	for i := 0; i < nreq; i++ {
 		l := fmt.Sprintf("r%d", i)
-		k := rapid.IntRange(0, 9).Draw(t, l+"-k")
+		k := rapid.IntRange(0, 12).Draw(t, l+"-k")
 		switch {
+		case cur >= 0 && k == 10 && sizes[cur] >= 24+2352+2048 && sizes[cur] < 1<<31:
+			// a CD sector read on the same handle moves the file position too
+			maxSec := int((sizes[cur] - 24 - 2048) / 2352)
+			start := rapid.IntRange(0, min(maxSec, 40)).Draw(t, l+"-cdstart")
+			cnt := rapid.IntRange(1, 2).Draw(t, l+"-cdcount")
+			if start+cnt-1 > maxSec {
+				cnt = 1
+			}
+			reqs = append(reqs, hx.Req{Op: "READ_CD", Start: uint32(start), Count: uint32(cnt)})
+		case cur >= 0 && lastEnd >= 0 && (k == 11 || k == 12):
+			// continue exactly where the previous read stopped
+			op := rapid.SampledFrom([]string{"READ_FILE", "READ_CRIT"}).Draw(t, l+"-cop")
+			n := int64(rapid.SampledFrom([]int{1, 256, 2048, 4096, 65536, 70000}).Draw(t, l+"-cn"))
+			if op == "READ_CRIT" && lastEnd+n > sizes[cur] {
+				n = sizes[cur] - lastEnd
+				if n < 0 {
+					n = 0
+				}
+			}
+			reqs = append(reqs, hx.Req{Op: op, N: uint32(n), Off: uint64(lastEnd)})
+			lastEnd += n
+			if lastEnd > sizes[cur] {
+				lastEnd = sizes[cur]
+			}
 		case cur < 0 || k == 0:
 			cur = rapid.IntRange(0, len(files)-1).Draw(t, l+"-file")
 			reqs = append(reqs, hx.Req{Op: "OPEN_FILE", Path: hx.BStr(files[cur])})
+			lastEnd = 0
 		case k == 1:
 			reqs = append(reqs, hx.Req{Op: rapid.SampledFrom([]string{"STAT", "OPEN_DIR", "DIR_SIZE"}).Draw(t, l+"-other"),
 				Path: hx.BStr(rapid.SampledFrom([]string{"/", "/sub", files[0], "/missing"}).Draw(t, l+"-p"))})
 		case k == 2:
 			reqs = append(reqs, hx.Req{Op: rapid.SampledFrom([]string{"READ_DIR", "READ_ENTRY", "READ_ENTRY2"}).Draw(t, l+"-lst")})
 		default:
-			reqs = append(reqs, genC02Read(t, sizes[cur], l))
+			r := genC02Read(t, sizes[cur], l)
+			reqs = append(reqs, r)
+			if int64(r.Off) < sizes[cur] {
+				lastEnd = int64(r.Off) + int64(r.N)
+				if lastEnd > sizes[cur] {
+					lastEnd = sizes[cur]
+				}
+			}
 		}
 	}
 	return hx.SessionCase{Tree: root, AllowWrite: false, Reqs: reqs, Transport: rapid.SampledFrom([]string{"sync", "sync", "split"}).Draw(t, "transport"),
@@ -110,19 +143,31 @@ func near(v int64, m int64) bool {
 
 func c02Classify(c hx.SessionCase, st *hx.Stats, kind string) {
 	var size int64 = -1
+	var prevEnd2 int64 = -1
+	afterCD := false
 	for _, r := range c.Reqs {
 		switch r.Op {
 		case "OPEN_FILE":
 			size = -1
+			prevEnd2, afterCD = 0, false
 			if n := c.Tree.Find(trimSlash(string(r.Path))); n != nil && n.Kind == "file" {
 				size = n.Size
 			}
+		case "READ_CD":
+			st.Label("op=READ_CD between reads")
+			afterCD = true
 		case "READ_FILE", "READ_CRIT":
 			if size < 0 {
 				continue
 			}
 			off, end := int64(r.Off), int64(r.Off)+int64(r.N)
 			var ls []string
+			if off == prevEnd2 && afterCD {
+				ls = append(ls, "sequential continuation right after a CD sector read")
+			}
+			if off == prevEnd2 {
+				ls = append(ls, "sequential continuation of the previous read")
+			}
 			if end >= size {
 				ls = append(ls, "read crosses or touches EOF")
 			}
@@ -147,6 +192,11 @@ func c02Classify(c hx.SessionCase, st *hx.Stats, kind string) {
 			if kind != "plain" {
 				ls = append(ls, "object="+kind)
 			}
+			prevEnd2 = end
+			if prevEnd2 > size {
+				prevEnd2 = size
+			}
+			afterCD = false
 			st.Label(ls...)
 			st.Label("op=" + r.Op)
 			if len(ls) > 0 {
